@@ -582,6 +582,34 @@ fn respelled_values(acc: &mut Acc) -> usize {
                     }
                 }
             }
+            // ... and the integer and boolean leaf texts of the XML payload
+            if let Some(text) = &body_text {
+                let b = text.as_bytes();
+                let mut i = 0;
+                let mut k = 0;
+                while let Some(p) = text[i..].find('>') {
+                    let s0 = i + p + 1;
+                    let Some(q) = text[s0..].find('<') else { break };
+                    let s1 = s0 + q;
+                    let leaf = &text[s0..s1];
+                    let closes = b.get(s1 + 1) == Some(&b'/');
+                    let mut sp: Vec<String> = Vec::new();
+                    if closes && !leaf.is_empty() && leaf.len() <= 18 && leaf.bytes().all(|c| c.is_ascii_digit()) {
+                        sp.extend([format!("0{leaf}"), format!("+{leaf}")]);
+                    } else if closes && (leaf == "true" || leaf == "false") {
+                        sp.extend([leaf.to_ascii_uppercase(), format!("{}{}", leaf[..1].to_ascii_uppercase(), &leaf[1..])]);
+                    }
+                    for v in sp {
+                        let nb = format!("{}{v}{}", &text[..s0], &text[s1..]).into_bytes();
+                        let mut r = plain.clone();
+                        r.set_header("content-length", &nb.len().to_string());
+                        let elem = text[..s0 - 1].rsplit('<').next().unwrap_or("").to_owned();
+                        variants.push((format!("payload <{elem}>#{k} as {v:?}"), r, nb));
+                    }
+                    k += 1;
+                    i = s1;
+                }
+            }
             // other spellings by member type (header- and query-bound members): integers with a leading zero or a plus sign,
             // booleans in another case, an http-date in its two obsolete forms (RFC 9110 5.6.7), a query value percent-escaped
             let model = op_model(d.name()).expect("model");
@@ -1008,7 +1036,7 @@ pub fn run(ctx: &Ctx) -> (Acc, Report) {
     let k = ctx.tier.pick(1, 2);
     let rep = Report {
         level: "exploration",
-        rule: format!("forward: 95 operations x (base() + every single deviation of every modelled input member over the alphabet of its wire position{}) x {{direct path-style, direct virtual-hosted-style under a host parser, proxied}}; each execution = aws-sdk-s3 encodes, the adapter decodes, the recording backend's typed input is compared field by field (streams by bytes) with the generated input. second transport: PutObject / UploadPart sent chunk-signed (every header/query member, 3 chunkings), and the document the SDK wrote for each of the 29 operations with a buffered XML / text body sent chunk-signed in one and in two chunks: the same typed input arrives. other spellings: every RFC 3339 date-time text the SDK wrote (headers, XML), re-spelled as the same instant at +02:00, -05:30 and +00:00, and every header- / query-bound integer (leading zeros, plus sign), boolean (other case), http-date (RFC 850 and asctime forms) and query string (percent-escaped): the same typed input, if accepted. rejection: for every SDK-encoded request with each optional header/query/meta member present once: every instance of duplicate (same / other value, either order) of each single-valued member, a value outside the type of each typed member, removal of each required member, Content-Length +-1/0 and a short body for buffered bodies. Distinct = distinct recorded inputs / distinct mutants.", if k == 2 { " + every pair of deviations of different members" } else { "" }),
+        rule: format!("forward: 95 operations x (base() + every single deviation of every modelled input member over the alphabet of its wire position{}) x {{direct path-style, direct virtual-hosted-style under a host parser, proxied}}; each execution = aws-sdk-s3 encodes, the adapter decodes, the recording backend's typed input is compared field by field (streams by bytes) with the generated input. second transport: PutObject / UploadPart sent chunk-signed (every header/query member, 3 chunkings), and the document the SDK wrote for each of the 29 operations with a buffered XML / text body sent chunk-signed in one and in two chunks: the same typed input arrives. other spellings: every RFC 3339 date-time text the SDK wrote (headers, XML), re-spelled as the same instant at +02:00, -05:30 and +00:00, and every integer (leading zeros, plus sign) and boolean (other case) in headers, query and XML leaf texts, every header http-date (RFC 850 and asctime forms) and query string (percent-escaped): the same typed input, if accepted. rejection: for every SDK-encoded request with each optional header/query/meta member present once: every instance of duplicate (same / other value, either order) of each single-valued member, a value outside the type of each typed member, removal of each required member, Content-Length +-1/0 and a short body for buffered bodies. Distinct = distinct recorded inputs / distinct mutants.", if k == 2 { " + every pair of deviations of different members" } else { "" }),
         exhaustive: true,
         extra: serde_json::Value::Object(extra),
         assumptions: vec![
